@@ -5,9 +5,7 @@ import multiprocessing as mp
 import os
 import sys
 
-SRC_ROOT = os.environ.get("BUMPVER_SRC", "/repo/src")
-if SRC_ROOT not in sys.path:
-    sys.path.insert(0, SRC_ROOT)
+from checks._src import SRC_ROOT, ensure_src  # noqa: E402
 
 CAL_FIELDS = ("year_y", "year_g", "quarter", "month", "dom", "doy", "week_w", "week_u", "week_v")
 
